@@ -16,14 +16,14 @@ CHECKS = {
     ),
     "C03": dict(
         level="exploration",
-        text="The block counter is the stream's clock; faults are clock jumps (public seek for ChaCha/XChaCha, counter-preset hook for ChaChaOriginal/Salsa/XSalsa and for the SSE2 and portable engines driven through hook H3) to values next to 2^32-1 and to low-word carries, followed by fragmented process/process_mut histories across the boundary. Every output byte is compared with an independent RFC 8439 / Bernstein block-function model at the absolute block index, and the counter getter must name the block the stream stands in or the next one (either bookkeeping is accepted; the keystream is what the property constrains). Jump targets include the last three blocks of a 64-bit-counter stream; histories there are clamped to stop at the end of the stream. Key, nonce, rounds and key length are seeded input sampling and labelled as such. 1.5M runs quick, 100M thorough.",
+        text="The block counter is the stream's clock; faults are clock jumps (public seek for ChaCha/XChaCha, counter-preset hook for ChaChaOriginal/Salsa/XSalsa and for the SSE2 and portable engines driven through hook H3) to values next to 2^32-1 and to low-word carries, followed by fragmented process/process_mut histories across the boundary, source, destination and in-place buffers each at a misalignment of their own (0..31 bytes), destinations pre-filled with garbage, single calls up to 2 MiB. Every output byte is compared with an independent RFC 8439 / Bernstein block-function model at the absolute block index, and the counter getter must name the block the stream stands in or the next one (either bookkeeping is accepted; the keystream is what the property constrains). Jump targets include the last three blocks of a 64-bit-counter stream; histories there are clamped to stop at the end of the stream. Key, nonce, rounds and key length are seeded input sampling and labelled as such. 1.5M runs quick, 100M thorough.",
         ref="DESIGN.md §4.2",
         note="Trusted: the harness's scalar ChaCha/Salsa/HChaCha/HSalsa model (unit-tested against RFC 8439 §2.3.2 and the XChaCha draft vector, and agreeing with the library on every run of the unchanged tree), hooks H2/H3. Does not cross 2^64 blocks (outside any specified domain).",
         technique=TECH + "; oracle = independent keystream model + counter invariant through a hook getter",
     ),
     "C04": dict(
         level="exploration",
-        text="streampos: up to 4 forked handles of one stream-cipher context, scheduler-chosen process (into a dirty destination), process_mut, fork, seek (0, mid-range, 2^32-1, from mid-block) and apply-twice, and in a quarter of the runs a refused call (process with mismatched buffer lengths, after which the position must be unchanged); every output must be input XOR the one-call stream of a fresh context at the model's absolute position (far seeks: fresh-context seek plus adjacent-seek consistency; wrap past 2^32 blocks must land on block 0). drg: request sequences bytes<N>/fill_bytes<N>/fill_slice/u32/u64 into destinations pre-filled with PRNG garbage; outputs must be the successive bytes of the specified ChaCha keystream for that seed (independent block-function model, all-zero nonce, from block 0). 1M+1M runs quick, 60M+60M thorough.",
+        text="streampos: up to 4 forked handles of one stream-cipher context, scheduler-chosen process (into a dirty destination at its own misalignment, calls up to 300 000 bytes), process_mut, fork, seek (0, mid-range, 2^32-1, from mid-block) and apply-twice, and in a quarter of the runs a refused call (process with mismatched buffer lengths, after which the position must be unchanged); every output must be input XOR the one-call stream of a fresh context at the model's absolute position (far seeks: fresh-context seek plus adjacent-seek consistency; wrap past 2^32 blocks must land on block 0). drg: request sequences bytes<N>/fill_bytes<N>/fill_slice/u32/u64 into destinations pre-filled with PRNG garbage and misaligned by 0..31 bytes; outputs must be the successive bytes of the specified ChaCha keystream for that seed (independent block-function model, all-zero nonce, from block 0). 1M+1M runs quick, 60M+60M thorough.",
         ref="DESIGN.md §4.3",
         note="streampos uses self-referential ground truth on purpose (the library's own one-call stream: the clause is about position semantics, and a wrong-but-consistent cipher trips C03); the DRG clause names the ChaCha keystream itself, so drg is judged against the independent model. u32/u64 byte order is not part of the property: either reading is accepted.",
         technique=TECH + "; oracle = one-call stream of a fresh context at the model position",
@@ -37,14 +37,14 @@ CHECKS = {
     ),
     "C06": dict(
         level="exploration",
-        text="Two parties over a fault-free channel. Sender: one-shot ChaChaPoly1305 or incremental Context -> add_data* -> to_encryption -> encrypt|encrypt_mut* -> finalize with AAD and data fragmented around 16 and 64 bytes, forks of Context and ContextEncryption mid-way (every fork is finished and checked). Receiver: independently chosen path and fragmentation. Oracles: (ciphertext, tag) equals an independent RFC 8439 §2.8 model (ChaCha block function + big-integer Poly1305) for rounds 8/12/20 and 128/256-bit keys; the receiver returns the plaintext and reports success. 1M runs quick, 80M thorough.",
+        text="Two parties over a fault-free channel. Sender: one-shot ChaChaPoly1305 or incremental Context -> add_data* -> to_encryption -> encrypt|encrypt_mut* -> finalize with AAD and data fragmented around 16 and 64 bytes, forks of Context and ContextEncryption mid-way (every fork is finished and checked). Receiver: independently chosen path and fragmentation. Oracles: (ciphertext, tag) equals an independent RFC 8439 §2.8 model (ChaCha block function + big-integer Poly1305) for rounds 8/12/20 and 128/256-bit keys; the receiver returns the plaintext and reports success. In one run of six the last piece of one handle is SOLVED by the model (Poly1305 equation mod 2^130-5 for the last ciphertext block) so that the honest tag is all-zero, all-ones, 1, 2^127, half-zero, or the final accumulator is 0 / p-1; every destination and in-place buffer sits at a misalignment of its own. 1M runs quick, 80M thorough.",
         ref="DESIGN.md §4.5",
         note="Trusted: the two independent models above. RFC 8439 defines 256-bit keys and 20 rounds; other rounds/key lengths are checked against the same construction over the corresponding ChaCha variant.",
         technique=TECH + "; oracle = independent RFC 8439 AEAD model + sender->receiver round trip",
     ),
     "C07": dict(
         level="fault_enumeration",
-        text="Channel fault injection between a real sender and real receivers: for every sampled honest (key, nonce, aad, ciphertext, tag) the complete catalogue of alterations is enumerated (all 128 tag bits, all 96 nonce bits, every bit of components <=64 bytes and sampled bits beyond, truncation/extension by 1/15/16 with zeros and garbage, moving bytes across the AAD/ciphertext boundary both ways, swapping AAD and ciphertext, swapping the two length roles, replay under another nonce, zero tag, tag of another message), each delivered to a fresh one-shot receiver AND a fresh incremental receiver with random fragmentation (pieces up to the whole remainder, messages up to 70 KiB in 1 run of 120; in about one delivery of eight the incremental receiver first has a call refused - buffer-to-buffer decrypt with a mismatched output length - and goes on with the same object). Verdict oracle: accept iff the delivered tag equals the independent model's RFC 8439 tag of exactly the delivered inputs; both receivers must agree. ~790 deliveries per run; 20k runs quick, 1.5M thorough.",
+        text="Channel fault injection between a real sender and real receivers: for every sampled honest (key, nonce, aad, ciphertext, tag) the complete catalogue of alterations is enumerated (all 128 tag bits, all 96 nonce bits, every bit of components <=64 bytes and sampled bits beyond, truncation/extension by 1/15/16 with zeros and garbage, moving bytes across the AAD/ciphertext boundary both ways, swapping AAD and ciphertext, swapping the two length roles, replay under another nonce, zero tag, tag of another message), each delivered to a fresh one-shot receiver AND a fresh incremental receiver with random fragmentation (pieces up to the whole remainder, messages up to 70 KiB in 1 run of 120; in about one delivery of eight the incremental receiver first has a call refused - buffer-to-buffer decrypt with a mismatched output length - and goes on with the same object). Verdict oracle: accept iff the delivered tag equals the independent model's RFC 8439 tag of exactly the delivered inputs; both receivers must agree. In one run of five the honest message itself is chosen (solved last block) so that its tag is one of those special values - the zero-tag alteration is then no alteration and must be accepted by both receivers. ~790 deliveries per run; 20k runs quick, 1.5M thorough.",
         ref="DESIGN.md §4.6",
         note="The catalogue is enumerated completely per sampled message (fault_enumeration); the messages themselves are sampled. Trusted: independent tag model.",
         technique=TECH + "; channel-fault catalogue enumerated per sampled message, oracle = independent tag model",
@@ -58,21 +58,21 @@ CHECKS = {
     ),
     "C09": dict(
         level="exploration",
-        text="Three-state lifecycle model (absorbing / done / retired) per handle for Poly1305, Hmac over 18 digests, legacy BLAKE2b/BLAKE2s through Mac (keyed and unkeyed) and the 18 legacy digest wrappers: scheduler-chosen input, result, raw_result, reset, reset_with_key, fork over up to 3 handles, with the misuse faults 'result again' and 'input after result' injected in half of the runs. Oracles: first result == a fresh object of the same type and key fed the same bytes in one call (and == the one-call hash for digest wrappers, == the static one-call function for keyed legacy BLAKE2); second result == first or a loud failure; input after result and result into a wrong-size buffer must fail loudly; reset keeps the key. After a call that was refused loudly the history goes on with the same object and an unchanged model: later calls may fail loudly (the handle is then retired) but a call that returns must return the right value. 1M runs quick, 80M thorough.",
+        text="Three-state lifecycle model (absorbing / done / retired) per handle for Poly1305, Hmac over 18 digests, legacy BLAKE2b/BLAKE2s through Mac (keyed and unkeyed) and the 18 legacy digest wrappers: scheduler-chosen input, result, raw_result, reset, reset_with_key, fork over up to 3 handles, with the misuse faults 'result again' and 'input after result' injected in half of the runs. Oracles: first result == a fresh object of the same type and key fed the same bytes in one call (and == the one-call hash for digest wrappers, == the static one-call function for keyed legacy BLAKE2); second result == first or a loud failure; input after result and result into a wrong-size buffer must fail loudly; reset keeps the key; a re-key of a legacy BLAKE2 object with an over-long key is refused and must leave key, bytes fed and lifecycle state as they were (checked by what follows: reset, input, result). After a call that was refused loudly the history goes on with the same object and an unchanged model: later calls may fail loudly (the handle is then retired) but a call that returns must return the right value. 1M runs quick, 80M thorough.",
         ref="DESIGN.md §4.8",
         note="Self-referential ground truth ('behaves like a freshly constructed one'). A refused call does not end the history: 'no history makes an object return a value that is not the MAC or digest of the bytes fed' includes histories with refused calls; what is tolerated after a refusal is a loud failure, never a wrong value. Keyed legacy BLAKE2 is driven through Mac only (Digest::reset on a keyed object is documented as 'state after new').",
         technique=TECH + "; oracle = lifecycle state machine + fresh object fed in one call",
     ),
     "C14": dict(
         level="fault_enumeration",
-        text="Signer -> hostile channel -> verifier, plus a Byzantine sender. For every sampled honest (seed, message) the complete catalogue is enumerated: untouched (must accept); all 512 signature bit flips, all 256 public-key bit flips, every/sampled message bit, truncate/extend, S+kL for k=1..15, another signer's key, another message's signature (must reject: an accepted one would be a forgery). Adversarial triples are judged by an INDEPENDENT Ed25519 model written from RFC 8032 on plain 256-bit integers (model::ed25519; unit-tested against RFC 8032 test vectors, base-point order and torsion orders): the honest triple itself, random (key, signature) pairs, canonical non-point keys, mixed-order keys A+T (T of order 2/4/8) with a signature produced by the real signer over those key bytes (valid iff the torsion part cancels), boundary values of S (0, 1, L-1, L, L+1, 2^252, ...), special encodings of R (the 8 torsion points, non-canonical identity encodings, random), crafted equations with S from the boundary family around L / 2^252 / 2L / 8L, honest signatures made from an UNCLAMPED extended secret (signature_extended + extended_to_public, 7 scalar classes up to the top of scalarmult_base's documented range a[31] <= 0x80; must verify and must satisfy the model), special R (torsion points, non-canonical identity encodings, random) combined with degenerate S (0, 1, 8, L-1, L) under the honest key, and the small-order-key forgeries with canonical and non-canonical R whose verdict is also known in closed form. Where the property text does not fix the verdict (non-canonical key encodings; keys with a torsion component for which 'h' reduced mod L or not gives different answers) the model says 'unspecified' and the run does not judge. ~970 verifications per run; 2k runs quick, 120k thorough.",
+        text="Signer -> hostile channel -> verifier, plus a Byzantine sender. For every sampled honest (seed, message) the complete catalogue is enumerated: untouched (must accept); all 512 signature bit flips, all 256 public-key bit flips, every/sampled message bit, truncate/extend, S+kL for k=1..15, another signer's key, another message's signature (must reject: an accepted one would be a forgery). Adversarial triples are judged by an INDEPENDENT Ed25519 model written from RFC 8032 on plain 256-bit integers (model::ed25519; unit-tested against RFC 8032 test vectors, base-point order and torsion orders): the honest triple itself, random (key, signature) pairs, canonical non-point keys, mixed-order keys A+T (T of order 2/4/8) with a signature produced by the real signer over those key bytes (valid iff the torsion part cancels), boundary values of S (0, 1, L-1, L, L+1, 2^252, ...), special encodings of R (the 8 torsion points, non-canonical identity encodings, random), crafted equations with S from the boundary family around L / 2^252 / 2L / 8L, honest signatures made from an UNCLAMPED extended secret (signature_extended + extended_to_public, 7 scalar classes up to the top of scalarmult_base's documented range a[31] <= 0x80; must verify and must satisfy the model), special R (torsion points, non-canonical identity encodings, random) combined with degenerate S (0, 1, 8, L-1, L) under the honest key, the small-order-key forgeries with canonical and non-canonical R whose verdict is also known in closed form, and small-order keys TOGETHER with a small-order component in R (R = [S]B + T, S = 0 or a boundary scalar, message searched so that T + h*A = O under both readings of h): triples that satisfy the equation although neither R nor A is the identity. Where the property text does not fix the verdict (non-canonical key encodings; keys with a torsion component for which 'h' reduced mod L or not gives different answers) the model says 'unspecified' and the run does not judge. ~1000 verifications per run; 2k runs quick, 120k thorough.",
         ref="DESIGN.md §4.9 and §10",
         note="Trusted: the harness's integer Ed25519 model and its own SHA-512 (FIPS 180-4; the verdict oracle does not use the library's hash). Triples are sampled (catalogue enumerated per sample), so this is evidence, not proof, that verify accepts exactly the triples satisfying the equation. Non-canonical encodings of the PUBLIC KEY are recorded but not judged.",
         technique=TECH + "; channel-fault catalogue enumerated per sampled signature; verdict oracle = independent RFC 8032 model (closed-form for forgery-hard alterations)",
     ),
     "C16": dict(
         level="exploration",
-        text="Cross-build replay: the simulator is built four times from the same tree (baseline = SSE2 ChaCha + portable SHA-256/BLAKE2, +sse4.1, +avx, +avx2; features the host CPU lacks are skipped and reported) and every binary executes the SAME seeds of hashbulk (SHA-224/256, BLAKE2b/2s with 1..=20 blocks per update at every alignment 0..31 after every partial-buffer fill, keyed/unkeyed), hashctx, ctrjump, streampos, aeadflow, hmacsplit, polysplit, lifecycle, ctrwrap and kdfprobe (HKDF/PBKDF2/scrypt/Argon2); per-run transcripts (FNV-128 of every byte the real code returned) are diffed against the baseline, a divergence is located to a run, ddmin-minimised with 'the two binaries disagree' as predicate and replayed in fresh processes. In every binary the active (SSE2) ChaCha engine is additionally run in lock-step with the portable engine (hook H3): init for every key/nonce length, rounds, add_back, counters, outputs.",
+        text="Cross-build replay: the simulator is built four times from the same tree (baseline = SSE2 ChaCha + portable SHA-256/BLAKE2, +sse4.1, +avx, +avx2; features the host CPU lacks are skipped and reported) and every binary executes the SAME seeds of hashbulk (SHA-224/256, BLAKE2b/2s with 1..=20 blocks per update at every alignment 0..31 after every partial-buffer fill, keyed/unkeyed), hashctx, ctrjump, streampos, aeadflow, hmacsplit, polysplit, lifecycle, ctrwrap and kdfprobe (HKDF/PBKDF2/scrypt/Argon2, outputs into dirty misaligned buffers, HKDF also with digest objects that carry pending bytes or were already finalised); per-run transcripts (FNV-128 of every byte the real code returned) are diffed against the baseline, a divergence is located to a run, ddmin-minimised with 'the two binaries disagree' as predicate and replayed in fresh processes. In every binary the active (SSE2) ChaCha engine is additionally run in lock-step with the portable engine (hook H3): init for every key/nonce length, rounds, add_back, counters, outputs.",
         ref="DESIGN.md §4.10",
         note="One seed is one execution whatever the compile-time dispatch selected. A defect shared by all paths changes all transcripts equally and is not C16's business. AVX-512/SHA-NI/aarch64 paths do not exist or are not reachable on this host.",
         technique="deterministic simulation replayed across build configurations: same seeded schedules in 4 builds, transcript equality, ddmin with a two-binary oracle; engine lock-step in-process",
